@@ -12,8 +12,9 @@ a process over the abstract file tree.  Control flow, errno tests and flag tests
 mirror the C.
 
 Abstractions (recorded in tools/props/C04.py as well):
-* `edit_deep_directories` (paths of PATH_MAX or more) is not modelled; theorems
-  carry the hypothesis that cleaned paths are shorter than PATH_MAX.
+* `edit_deep_directories` is modelled (`editLoop`); the confinement theorems carry the
+  hypothesis that entry pathnames are shorter than PATH_MAX, the working-directory
+  theorem does not.
 * Ownership, ACLs, xattrs, file flags, mac metadata, sparse writes, HFS
   compression, set-id/sticky bits and NO_OVERWRITE_NEWER / NO_AUTODIR /
   CLEAR_NOCHANGE_FFLAGS are outside the option sets of the property.
@@ -25,6 +26,7 @@ Abstractions (recorded in tools/props/C04.py as well):
 -/
 import LA.Model.FS
 import LA.Gen.DiskWriter
+import LA.Lemmas.PathCleanFast   -- proved `@[csimp]` speed-up of `cleanup` for the compiled driver (no Mathlib)
 namespace LA.Xtr
 open LA.FS LA.PathClean
 open LA.Gen.DiskWriter
@@ -395,6 +397,50 @@ def createParentDir (fl : XFlags) (umask : Nat) (path : List Nat) : Prog (St × 
   | none => pure (.ok, [])
   | some d => createDir fl umask d
 
+/-! ### edit_deep_directories -/
+
+/-- Greatest offset `i` with `0 < i ≤ k` and `p[i] = '/'`:
+"tail += PATH_MAX - 8; while (tail > a->name && *tail != '/') tail--;" -/
+def slashAtMost (p : List Nat) : Nat → Option Nat
+  | 0 => none
+  | k + 1 => if p[k + 1]? = some SLASH then some (k + 1) else slashAtMost p k
+
+theorem slashAtMost_pos (p : List Nat) : ∀ k i, slashAtMost p k = some i → 0 < i := by
+  intro k
+  induction k with
+  | zero => intro i h; simp [slashAtMost] at h
+  | succ k ih =>
+    intro i h
+    unfold slashAtMost at h
+    split at h
+    · simp at h; omega
+    · exact ih i h
+
+/-- The `while (strlen(tail) >= PATH_MAX)` loop of `edit_deep_directories`: `name` is what
+`a->name` points at; the result is the shortened name and the fix-ups `create_dir` queued.
+Every successful `chdir` moves the process. -/
+def editLoop (fl : XFlags) (umask : Nat) (name : List Nat) : Prog (List Nat × List Fixup) :=
+  if name.length < pathMax then pure (name, [])
+  else
+    match _h : slashAtMost name (pathMax - 8) with
+    | none => pure (name, [])                 -- "Exit if we find a too-long path component."
+    | some i => do
+      let (st, fx) ← createDir fl umask (name.take i)
+      let entered ← (if st = .ok then do
+          let r ← sys (.chdir (name.take i))
+          pure (errOf r).isNone
+        else pure false : Prog Bool)
+      if !entered then pure (name, fx)
+      else do
+        let (n2, fx2) ← editLoop fl umask (name.drop (i + 1))
+        pure (n2, fx2 ++ fx)
+termination_by name.length
+decreasing_by
+  have := slashAtMost_pos name _ i _h
+  have hp : pathMax = 4096 := rfl
+  simp only [List.length_drop]
+  omega
+
 /-! ### per-entry state of the writer -/
 
 structure ES where
@@ -557,7 +603,19 @@ def header (w : Writer) (e : Entry) : Prog (St × Writer) :=
                        modeForce := fl.perm, todoTimes := fl.time }
       let chk ← (if fl.secureSymlinks then checkSymlinks fl false name else pure .ok : Prog St)
       if chk ≠ .ok then pure (chk, w) else do
+      -- edit_deep_directories: "If path exceeds PATH_MAX, shorten the path."
+      let deep : Bool := decide (name.length ≥ pathMax)
+      let (name, fxd) ← (if deep then do
+          let _ ← sys .rOpenCwd
+          editLoop fl umask name
+        else pure (name, []) : Prog (List Nat × List Fixup))
       let (ret, es) ← restoreEntry fl umask e name es
+      -- "If we changed directory above, restore it here."
+      let ret ← (if deep then do
+          let r ← sys .rFchdir
+          let _ ← sys .rClose
+          pure (match r with | .err _ => St.fatal | _ => ret)
+        else pure ret : Prog St)
       let ft : Option Kind := some (match e.kind with
         | .file | .hardlink => .reg | .dir => .dir | .symlink => .lnk | .fifo => .fifo)
       -- "Fixup uses the unedited pathname from archive_entry_pathname()"
@@ -566,7 +624,7 @@ def header (w : Writer) (e : Entry) : Prog (St × Writer) :=
           some { name := e.path, filetype := ft, doMode := es.defMode, doTimes := es.defTimes,
                  mode := es.mode, mtime := e.mtime }
         else none
-      let fixups := (match fe with | some f => [f] | none => []) ++ es.fix ++ w.fixups
+      let fixups := (match fe with | some f => [f] | none => []) ++ es.fix ++ fxd ++ w.fixups
       let w := { w with fixups := fixups }
       pure (ret, if ret = .ok ∨ ret = .warn then { w with cur := some (e, name, es) } else w)
   | _ => pure (.failed, w)
